@@ -64,39 +64,46 @@ Definition otru (o : option Q) : Q := match o with Some v => v | None => 0%Q end
 
 (* one amplifier: D = prev_dp - prev_voa of the walk so far; returns the designed amplifier and the new D.
    lib: equipment['Edfa'] (KeyError if the variety is unknown); sel: the variety select_edfa picks (C10) *)
+Definition amp_dp0 (s : scfg) (x : actx) (a : ain) : Q :=
+  match i_dp a with None => (target_power s (x_next x) + otru (i_voa a))%Q | Some d => d end.
+(* compute_gain_power_and_tilt_target: (gain_target, dp) *)
+Definition amp_gd (s : scfg) (D : Q) (x : actx) (a : ain) : Q * Q :=
+  let dp0 := amp_dp0 s x a in
+  let inv := otru (i_invoa a) in
+  match i_gain a with
+  | Some g => if s_pm s then ((x_loss x + dp0 - D + inv)%Q, dp0) else (g, (D - x_loss x + g - inv)%Q)
+  | None => ((x_loss x + dp0 - D + inv)%Q, dp0)
+  end.
+Definition amp_var (sel : string -> string) (a : ain) : string :=
+  if String.eqb (i_var a) "" then sel (i_name a) else i_var a.
+(* power_reduction: select_edfa's for an amplifier without variety, the saturation test otherwise *)
+Definition amp_pr (s : scfg) (D : Q) (x : actx) (a : ain) (b : alib) (gd : Q * Q) : Q :=
+  let pt := (x_ptot x + snd gd)%Q in
+  if String.eqb (i_var a) "" then qmin 0 (qmin (pt - fst gd + b_gfm b + s_ext s) (b_pmax b) - pt)
+  else if s_pm s then qmin 0 (b_pmax b - pt)
+  else qmin 0 (b_pmax b - (x_ptot x + D - x_loss x + fst gd)).
+(* set_amplifier_voa: (out_voa, what is added to delta_p and effective_gain) *)
+Definition amp_voa (s : scfg) (x : actx) (a : ain) (b : alib) (gd : Q * Q) (pr : Q) : Q * Q :=
+  match i_voa a with
+  | Some v => (v, 0%Q)
+  | None =>
+      if s_pm s && b_vauto b then
+        let v := qmax (r2f (qmin (b_pmax b - (x_ptot x + snd gd)) (b_gfm b - (fst gd + pr))) (s_vstep s) - s_margin s) 0 in
+        (v, v)
+      else (0%Q, 0%Q)
+  end.
 Definition design_amp (s : scfg) (lib : string -> option alib) (sel : string -> string)
   (D : Q) (x : actx) (a : ain) : res (aout * Q) :=
-  let voa0 := otru (i_voa a) in
-  let inv := otru (i_invoa a) in
-  let dp0 := match i_dp a with None => (target_power s (x_next x) + voa0)%Q | Some d => d end in
-  let '(gain0, dp) :=
-    match i_gain a with
-    | Some g => if s_pm s then ((x_loss x + dp0 - D + inv)%Q, dp0) else (g, (D - x_loss x + g - inv)%Q)
-    | None => ((x_loss x + dp0 - D + inv)%Q, dp0)
-    end in
-  let tilt := match i_tilt a with None => 0%Q | Some t => t end in
-  let pt := (x_ptot x + dp)%Q in
-  let auto := String.eqb (i_var a) "" in
-  let var := if auto then sel (i_name a) else i_var a in
-  match lib var with
+  match lib (amp_var sel a) with
   | None => Err "KeyError:type_variety"
   | Some b =>
-      let pr :=
-        if auto then qmin 0 (qmin (pt - gain0 + b_gfm b + s_ext s) (b_pmax b) - pt)
-        else if s_pm s then qmin 0 (b_pmax b - (x_ptot x + dp))
-        else qmin 0 (b_pmax b - (x_ptot x + D - x_loss x + gain0)) in
-      let dp1 := (dp + pr)%Q in
-      let g1 := (gain0 + pr)%Q in
-      let '(voa, dp2, g2) :=
-        match i_voa a with
-        | Some v => (v, dp1, g1)
-        | None =>
-            if s_pm s && b_vauto b then
-              let v := qmax (r2f (qmin (b_pmax b - pt) (b_gfm b - g1)) (s_vstep s) - s_margin s) 0 in
-              (v, (dp1 + v)%Q, (g1 + v)%Q)
-            else (0%Q, dp1, g1)
-        end in
-      Ok (mkOut (i_name a) var g2 (if s_pm s then Some dp2 else None) tilt voa inv, (dp1 - voa0)%Q)
+      let gd := amp_gd s D x a in
+      let pr := amp_pr s D x a b gd in
+      let vv := amp_voa s x a b gd pr in
+      Ok (mkOut (i_name a) (amp_var sel a) (fst gd + pr + snd vv)%Q
+                (if s_pm s then Some (snd gd + pr + snd vv)%Q else None)
+                (match i_tilt a with None => 0%Q | Some t => t end) (fst vv) (otru (i_invoa a)),
+          (snd gd + pr - otru (i_voa a))%Q)
   end.
 Fixpoint design_amps (s : scfg) (lib : string -> option alib) (sel : string -> string)
   (D : Q) (l : list (actx * ain)) : res (list aout) :=
@@ -139,6 +146,60 @@ Fixpoint rounds (c : cfg) (n : nat) (l : line) : res line :=
   | O => Ok l
   | S k => let* l1 := redesign_line c l in rounds c k l1
   end.
+
+(* ---------- from the designed fibres to the amplifier contexts (set_egress_amplifier's walk) ---------- *)
+(* design_span_loss cached by add_fiber_padding on the last fibre of a span (r: the span before padding):
+   this_span_loss, plus the WHOLE att_in of the first fibre when padding was added (finding F20) *)
+Definition run_dsl (c : cfg) (r : list elem) : Q :=
+  let sl := run_loss r in
+  if Qltb sl (c_pad c) then
+    match r with
+    | Fib g :: _ => (sl + (f_att g + (c_pad c - sl)))%Q
+    | _ => sl
+    end
+  else sl.
+Definition last_plain_fib (r : list elem) : bool :=
+  match last r dflt with Fib f => negb (f_raman f) | _ => false end.
+Definition raman_gain (rgain : string -> Q) (r : list elem) : Q :=
+  qsum (map (fun e => match e with Fib f => if f_raman f then rgain (f_name f) else 0%Q | _ => 0%Q end) r).
+(* span_loss(prev_node): cached on a plain last fibre, recomputed (padded losses minus Raman gains) otherwise;
+   r: the span before padding, r': after padding *)
+Definition loss_as_prev (c : cfg) (rgain : string -> Q) (r r' : list elem) : Q :=
+  if last_plain_fib r then run_dsl c r else (run_loss r' - raman_gain rgain r')%Q.
+(* span_loss(next_node) inside target_power: next_node is the first element of the span; cached only when the span
+   is that single plain fibre; a Raman fibre in the span cannot be estimated there (TypeError, finding F15) *)
+Definition loss_as_next (c : cfg) (r r' : list elem) : res Q :=
+  match r with
+  | [Fib f] => if f_raman f then Err "TypeError:estimate_raman_gain without input power" else Ok (run_dsl c r)
+  | _ => if has_raman r then Err "TypeError:estimate_raman_gain without input power" else Ok (run_loss r')
+  end.
+Definition is_amp_run (r : list elem) : bool := match r with [Amp _] => true | _ => false end.
+(* walk over the spans of a designed line: prev = the span before the current group (None: ROADM / amplifier) *)
+Fixpoint amp_items (c : cfg) (rgain : string -> Q) (opsf : string -> ain) (ptot : Q) (dst_roadm : bool)
+  (prev : option (list elem * list elem)) (gs : list (list elem * list elem)) : res (list (actx * ain)) :=
+  match gs with
+  | [] => Ok []
+  | (r, r') :: t =>
+      match r with
+      | [Amp a] =>
+          let xl := match prev with Some (p, p') => loss_as_prev c rgain p p' | None => 0%Q end in
+          let* nx := (match t with
+                      | [] => if dst_roadm then Ok NRoadm else Err "AttributeError:target_power of a Transceiver"
+                      | (n, n') :: _ => if is_amp_run n then Ok (NLoss 0) else let* l := loss_as_next c n n' in Ok (NLoss l)
+                      end) in
+          let* rest := amp_items c rgain opsf ptot dst_roadm None t in
+          Ok ((mkX xl nx ptot, opsf (a_name a)) :: rest)
+      | _ => amp_items c rgain opsf ptot dst_roadm (Some (r, r')) t
+      end
+  end.
+(* the amplifier settings of a whole line whose fibres are designed (els: after add_missing + add_connector_loss,
+   before padding) *)
+Definition design_line_amps (c : cfg) (s : scfg) (lib : string -> option alib) (sel : string -> string)
+  (rgain : string -> Q) (opsf : string -> ain) (D0 ptot : Q) (dst_roadm : bool) (els : list elem) : res (list aout) :=
+  let pre := runs els in
+  let* post := mapM (pad_run c) pre in
+  let* items := amp_items c rgain opsf ptot dst_roadm None (combine pre post) in
+  design_amps s lib sel D0 items.
 
 (* ---------- SimParams ---------- *)
 Inductive jv := JB (b : bool) | JS (s : string) | JZ (z : Z) | JQ (q : Q) | JZL (l : list Z) | JNone.
